@@ -451,3 +451,11 @@ Theorem selected_is_validated_and_nominated cfg lu lp ops id :
 Proof.
   intros Hsel. destruct (run_G cfg lu lp ops) as [Hsv _]. unfold InvSV in Hsv. rewrite Hsel in Hsv. exact Hsv.
 Qed.
+
+Lemma ids_unique_and_selected_listed cfg lu lp ops :
+  let s := fst (run cfg lu lp ops) in
+  InvU s /\ (forall id, s_selected s = Some id -> exists p, In p (s_checklist s) /\ p_id p = id).
+Proof.
+  intros s. destruct (run_G cfg lu lp ops) as [Hsv Hu]. split; [exact Hu|].
+  intros id Hsel. fold s in Hsv. unfold InvSV in Hsv. rewrite Hsel in Hsv. destruct Hsv as [p [Hin [Hid _]]]. exists p. auto.
+Qed.
